@@ -4,6 +4,12 @@
 
 #include <cmath>
 #include <vector>
+#if defined(__cpp_impl_three_way_comparison) && __cpp_impl_three_way_comparison >= 201907L
+#include <compare>
+#define VF9_SPACESHIP 1
+#else
+#define VF9_SPACESHIP 0
+#endif
 
 #include "au/au.hh"
 #include "vf_monitor.hh"
@@ -208,6 +214,32 @@ struct MixedOps<U1, U2, R, true> {
         }
         g_st.judged++;
         if (lt != (cmp < 0) || gt != (cmp > 0) || eq != (cmp == 0) || le != (cmp <= 0) || ge != (cmp >= 0) || ne != (cmp != 0)) mismatch("point compare", x, y, (int)lt, (int)(cmp < 0));
+#if VF9_SPACESHIP
+        { int s3 = 9; VF_PHASE(vf::PH_OPERATION) { auto c = (p <=> q); s3 = c < 0 ? -1 : (c > 0 ? 1 : (c == 0 ? 0 : 2)); } g_st.evals++; if (s3 != cmp) mismatch("point <=>", x, y, s3, cmp); }
+#endif
+        // min / max / clamp across units: the result sits at the absolute position of the lower / upper operand
+        {
+            const ld L = m.approx((ld)x), R_ = (ld)y;  // both positions on the U2 scale
+            {
+                // domain: everything the common (finer) point unit has to hold stays representable with head-room
+                const ld big_ = std::max(std::max(std::fabs(L), std::fabs(R_)), std::max(std::fabs((ld)x), std::max(std::fabs((ld)x * m.sn / m.sd), std::fabs((ld)m.on / m.od))));
+                const ld lim_ = std::is_integral<R>::value ? std::ldexp((ld)1, std::numeric_limits<R>::digits - 10) : (ld)std::numeric_limits<R>::max() / 1e9L;
+                const ld fine_ = std::is_integral<R>::value ? (ld)(1 << 20) * std::fabs((ld)m.sd * (ld)m.od) : 1;
+                if (!(big_ * fine_ < lim_)) { g_st.skipped++; return; }
+            }
+            ld mn = 0, mx = 0, cl = 0;
+            VF_PHASE(vf::PH_OPERATION) {
+                mn = min(p, q).template coerce_in<ld>(U2{}); mx = max(p, q).template coerce_in<ld>(U2{});
+                cl = clamp(p, min(q, q), max(q, q)).template coerce_in<ld>(U2{});
+            }
+            g_st.evals += 3;
+            // floating reps: the conversion to the common point unit adds an origin offset, so the error scales with the largest term
+            const ld bigt = std::max(std::max(std::fabs(L), std::fabs(R_)), std::max(std::fabs((ld)x * m.sn / m.sd), std::fabs((ld)m.on / m.od)));
+            const ld tol = (std::is_integral<R>::value ? 0 : 16 * ulp_of<R>(bigt)) + 64 * ulp_of<ld>(bigt);
+            if (!(std::fabs(mn - std::min(L, R_)) <= tol)) mismatch("point min", x, y, mn, std::min(L, R_));
+            if (!(std::fabs(mx - std::max(L, R_)) <= tol)) mismatch("point max", x, y, mx, std::max(L, R_));
+            if (!(std::fabs(cl - R_) <= tol)) mismatch("point clamp", x, y, cl, R_);
+        }
     }
 };
 
